@@ -159,6 +159,26 @@ fn bad_cases(out: &mut Vec<Case>) {
             out.push(Case { text: format!("const int n = {}; {}", v, decl.replace("{}", "n")), tag: format!("toolarge-const/{}", tag), expect: vec![], bad_width: Some(("x".into(), wrong.clone())), gates: None, def_ret: None, nontrivial: true });
         }
     }
+    // negative widths: written directly, and through a const of every integer type (a const of
+    // the literal's own type int[128] is stored without a cast)
+    for v in [1i64, 3, 8, 32] {
+        let wrong = vec![v as u32, (-v) as u32, 1];
+        for decl in ["int[{}] x;", "uint[{}] x;", "bit[{}] x;", "qubit[{}] x;", "float[{}] x;", "angle[{}] x;", "complex[float[{}]] x;"] {
+            out.push(Case { text: decl.replace("{}", &format!("-{}", v)), tag: "negative/literal".into(), expect: vec![], bad_width: Some(("x".into(), wrong.clone())), gates: None, def_ret: None, nontrivial: true });
+            for ct in ["int", "int[8]", "int[32]", "int[64]", "int[128]"] {
+                out.push(Case { text: format!("const {} n = -{}; {}", ct, v, decl.replace("{}", "n")), tag: format!("negative-const/{}", ct), expect: vec![], bad_width: Some(("x".into(), wrong.clone())), gates: None, def_ret: None, nontrivial: true });
+                out.push(Case { text: format!("const {} n = -{}; if (true) {{ {} }}", ct, v, decl.replace("{}", "n")), tag: format!("negative-const-inner/{}", ct), expect: vec![], bad_width: Some(("x".into(), wrong.clone())), gates: None, def_ret: None, nontrivial: true });
+            }
+        }
+    }
+    for v in [4294967296u64, 4294967297, 1 << 40] {
+        let wrong = vec![(v & 0xffff_ffff) as u32];
+        for ct in ["int[64]", "int[128]", "uint[64]", "uint[128]", "uint"] {
+            for decl in ["int[n] x;", "bit[n] x;", "qubit[n] x;", "complex[float[n]] x;"] {
+                out.push(Case { text: format!("const {} n = {}; {}", ct, v, decl), tag: format!("toolarge-const/{}", ct), expect: vec![], bad_width: Some(("x".into(), wrong.clone())), gates: None, def_ret: None, nontrivial: true });
+            }
+        }
+    }
     for (tag, pre) in [("nonconst", "int n = 3;"), ("input", "input int n;"), ("undeclared", ""), ("negative", "const int n = -3;"), ("float", "const float n = 3.0;"), ("bool", "const bool n = true;"), ("loopvar", "for int n in [0:3] {"), ("qubit", "qubit n;")] {
         for decl in ["int[n] x;", "bit[n] x;", "qubit[n] x;", "float[n] x;", "complex[float[n]] x;"] {
             let post = if tag == "loopvar" { " }" } else { "" };
